@@ -239,6 +239,15 @@ class Program:
 
     def _scan_module(self, m: Module) -> None:
         self._scan_imports(m, m.tree.body, False)
+        # imports made inside functions (`import textwrap` in a method body): the alias resolves the same way wherever it is not
+        # bound to something else (a scope consults the module's imports only for names it does not define itself)
+        top = set(m.imports)
+        for fn in [x for x in ast.walk(m.tree) if isinstance(x, (ast.FunctionDef, ast.AsyncFunctionDef))]:
+            for st in ast.walk(fn):
+                if isinstance(st, (ast.Import, ast.ImportFrom)):
+                    names = [(a.asname or (a.name.split(".")[0] if isinstance(st, ast.Import) else a.name)) for a in st.names]
+                    if not any(n in top for n in names):
+                        self._scan_imports(m, [st], False)
         for st in m.tree.body:
             if isinstance(st, ast.Assign) and len(st.targets) == 1 and isinstance(st.targets[0], ast.Name):
                 m.assigns[st.targets[0].id] = st.value
